@@ -239,7 +239,9 @@ def owner_closure(repo, cls_name, designated):
             sites = call_sites(repo, name)
             if not sites or mentions(repo, name):
                 continue
-            if all(c.cls is not None and c.cls.name == cls_name and c.name in allowed for c, _ in sites):
+            # (the caller may be a method the class inherits: a template method of a base class calling the subclass's hook)
+            family = set(c2.name for c2 in repo.mro(cls_name))
+            if all(c.cls is not None and c.cls.name in family and c.name in allowed for c, _ in sites):
                 allowed.add(name)
                 changed = True
     return allowed
